@@ -1,5 +1,8 @@
 """C03 — non-malleable satisfactions cannot be altered by third parties (DESIGN 5/C03).
-Proof side: Properties/C03.v (has_sig bookkeeping of the satisfier model; partial).
+Proof side: Properties/C03.v — has_sig bookkeeping of the satisfier model; TABLE-LEVEL uniqueness (U1, all
+fragments): the witness the non-malleable model returns is the only satisfaction-table entry of the third party
+that saw it (Proofs/NonMallUnique*.v, notes/C03-unique.md); script level partial (gap = Theorem B:
+"accepted => table entry"), which is what the search below still covers.
 Search side: for every non-malleable satisfaction the implementation returns for a sane
 wsh / sh(wsh) / sh / bare / tr-script-path descriptor with <= 6 script inputs, alternative witnesses over the adversary's
 alphabet (elements of the original witness, empty, 01, 32 zero bytes, junk, every preimage,
@@ -34,5 +37,5 @@ def run(rep, tier, seed, replay):
         "alternatives_accepted": s.get("c03_bad", 0), "cases": s.get("cases", 0),
         "samples": [{"summary": s}],
     })
-    rep.assumptions = ["the search is bounded (budget per witness); the uniqueness statement itself is not a theorem yet",
+    rep.assumptions = ["uniqueness among TABLE entries is a theorem (C03_unique); 'every accepted witness is a table entry' (Theorem B) is not: the bounded search (budget per witness) covers that gap",
                        "pkh / wpkh / sh(wpkh) / tr key path have a single signature element and are not searched"]
